@@ -93,6 +93,7 @@ func VH_C04_request() {
 		f.ServeHTTP(&vSpy{}, &http.Request{Method: "GET", URL: &url.URL{Path: "/"}, Header: http.Header{}})
 		return
 	}
+	vx.PoolReuse(true) // whatever the framework recycles through a sync.Pool may come back for the next request
 	p1 := serve()
 	wantTag := 0
 	if reqMaps {
@@ -125,5 +126,6 @@ func VH_C04_request() {
 			vx.Assert(p2 && len(seen) == 0, "C04: values mapped during a request are visible to that request only (second request cannot resolve it)")
 		}
 	}
+	vx.PoolReuse(false)
 	vx.Observe("request", appHas, secondAsks, wrapKind, remap, p1, p2)
 }
